@@ -267,7 +267,14 @@ def _guard_role(lib, owner, S, b, bi):
     callees = [core.callee_base(x[1]) for x in walk(d) if x[0] == "call" and isinstance(x[1], str)]
     if any(k in ("core::option::Option::replace", "alloc::collections::BTreeSet::insert", "alloc::collections::BTreeSet::contains") for k in callees):
         return "duplicate"
+    if d[0] == "discr" and d[1][0] == "call" and core.callee_base(d[1][1]) == "core::num::NonZero::new":
+        return "zero-length"
+    if d[0] == "discr" and d[1][0] == "call" and core.callee_base(d[1][1]).split("::")[-1] in ("checked_add", "checked_mul", "checked_sub"):
+        return "scale"
     if any(k in ("core::convert::TryFrom::try_from", "core::convert::TryInto::try_into") for k in callees):
+        # the byte length of a pattern not fitting u32 is "pattern too long" (invalid argument); counts not fitting are scale limits
+        if any(str(k).split("@")[0].endswith("EdgeLabel::num_bytes") for k in callees):
+            return "too-long"
         return "scale"
     if d[0] == "discr" and any("try_from" in str(k) for k in callees):
         return "scale"
